@@ -5,7 +5,7 @@ from hypothesis import strategies as st
 import gen
 import model as M
 import oracle
-from common import ModelRun, model_classes, cx, pipeline_guard, Blocks
+from common import ModelRun, model_classes, cx, pipeline_guard, Blocks, chi_floor
 from drive import Result
 
 RULE = ("Hypothesis generates models (N<=4 quick, <=5 thorough) with beta in [0.5,200] (most blocks negligible when cold) and a "
@@ -140,7 +140,7 @@ def execute(case, ctx):
             x = cx(xa[t]); y = cx(xb[t])
             rr, sc = ref.chi4(i, j, k, l, n1, n2, n3, return_scale=True)
             S = beta ** 3 * sc
-            bound = eps * beta ** 3 / 6.0 * ref.last_chain_abs * (1 + 1e-9) + 2e-8 * (abs(rr) + S) + 1e-13
+            bound = eps * beta ** 3 / 6.0 * ref.last_chain_abs * (1 + 1e-9) + 2e-8 * (abs(rr) + S) + 2 * chi_floor(beta, N)
             r = cmp(x, y, bound, "chi_%d%d%d%d(%d,%d,%d)" % (i, j, k, l, n1, n2, n3), "trunc-chi")
             if r:
                 return r
